@@ -309,6 +309,11 @@ def run(program, ctx):
     rule_coverage(program, ctx)
     c13.rule_liveness(program, ctx, prop=P, rid="C05.liveness")
     c13.rule_replace(program, ctx, prop=P, rid="C05.replace")
+    from . import c01
+
+    ridn = ctx.rule("C05.norm", "ids/authors of a filter are normalised by the hex validator (it hands on the lower-cased, checked id): the live matcher compares them "
+                    "case-sensitively while the SQL matcher does not, so un-normalised spellings make live and stored matching disagree", floor=1)
+    c01._ids_are_hex_ok(program, ctx, ridn, P)
     ctx.not_decided += [
         "exactly-once delivery and absence of loss under all interleavings of tasks and connections (schedule exploration is another family)",
         "check_event's set-of-booleans logic being equivalent to the stored predicates for every event (e.g. delegated authors)",
